@@ -1,31 +1,26 @@
 #!/usr/bin/env python3
-"""Regenerates MANIFEST.json from the table below (single source of truth for what is claimed)."""
+"""Regenerates MANIFEST.json and known_findings.json.
+A property is claimed iff bin/lib/props/<ID>.py (the check) and bin/lib/props/<ID>.json (its
+level text: keys text, note, design [, category, technique]) both exist and <ID> is not listed
+in bin/lib/props/UNCLAIMED.json (id -> reason).  known/<ID>.json fragments (lists of findings)
+are merged into the committed known_findings.json."""
 import json
 from pathlib import Path
 
 ROOT = Path(__file__).resolve().parents[1]
+PROPS = ROOT / "bin" / "lib" / "props"
 TECH = "explicit TLA+ specification model-checked with TLC; executions of the real crate recorded by the harness and judged by a TLA+ trace specification (trace validation)"
-
-CLAIMED = {
-    "C01": dict(
-        text="TLC model-checks the datum life-cycle (MC_Datum: Encode/Append/Decode/DecodeSecond over a bounded universe of schemas x boundary values; round trip, exact consumption, truncation-is-error hold for the transcription). Every explored case plus seeded random deeper cases is executed on the real GenericDatumWriter/GenericDatumReader and each recorded execution is judged by Trace_Datum.tla (round trip bit-for-bit, decimals numerically, maps as functions; exact consumption with a sentinel; second datum of a concatenation; validate on/off give identical bytes).",
-        note="Trusted: spec/AvroBinary.tla as oracle (consistency model-checked), harness term<->Value projection, serde_json. Bounded: schemas to depth 2 exhaustively by grammar, depth<=4 sampled.",
-        design="§3 C01"),
-    "C02": dict(
-        text="spec/AvroBinary.tla is an independent implementation of the Avro binary encoding transcribed from the specification (literal spec examples are ASSUMEd). Writer direction: bytes of the real writer are parsed by the TLA+ Parse and must give the value. Reader direction: TLC computes 6 spec-legal layouts per case (multi-block, negative counts with byte sizes, reversed map entries) and the real decoder must decode each to the same value, consuming all bytes.",
-        note="Trusted: the transcription of the specification text (Appendix B.1 of DESIGN.md); layouts are a finite family of partitions, not all compositions for long arrays.",
-        design="§3 C02"),
-}
-
-REASONS_NOT_YET = "check not built yet in this round (planned, see DESIGN.md §7); not claimed rather than claimed weakly"
+NOT_YET = "check not built yet (planned, DESIGN.md §7); not claimed rather than claimed weakly"
 
 
 def main():
     props = [json.loads(l)["id"] for l in (ROOT / "properties.jsonl").read_text().splitlines() if l.strip()]
-    checks = []
+    unclaimed = json.loads((PROPS / "UNCLAIMED.json").read_text()) if (PROPS / "UNCLAIMED.json").exists() else {}
+    checks, na = [], []
     for p in props:
-        if p in CLAIMED:
-            c = CLAIMED[p]
+        meta, code = PROPS / f"{p}.json", PROPS / f"{p}.py"
+        if meta.exists() and code.exists() and p not in unclaimed:
+            c = json.loads(meta.read_text())
             checks.append({
                 "property_id": p,
                 "quick_cmd": f"bin/check {p} --tier quick",
@@ -33,11 +28,14 @@ def main():
                 "evidence_file": f"/verif/evidence/{p}.json",
                 "replay_cmd_template": f"bin/check {p} --replay {{path}}",
                 "engine": "tlc+avh",
-                "level_claimed": {"category": c.get("category", "model_checking"), "text": c["text"], "design_ref": c["design"]},
+                "level_claimed": {"category": c.get("category", "model_checking"), "text": c["text"], "design_ref": c.get("design", "")},
                 "level_note": c["note"],
                 "technique": c.get("technique", TECH),
             })
-    hooks_commits = json.loads((ROOT / "hooks_commits.json").read_text()) if (ROOT / "hooks_commits.json").exists() else []
+        else:
+            na.append({"property_id": p, "reason": unclaimed.get(p, NOT_YET)})
+    hooks_file = ROOT / "hooks_commits.json"
+    hooks_commits = json.loads(hooks_file.read_text()) if hooks_file.exists() else []
     m = {
         "version": 1,
         "setup_cmd": "bin/setup",
@@ -49,14 +47,19 @@ def main():
             "add_only": True,
         },
         "engines": [
-            {"name": "tlc+avh", "path": "/verif/bin/check", "serves_properties": sorted(CLAIMED),
+            {"name": "tlc+avh", "path": "/verif/bin/check", "serves_properties": [c["property_id"] for c in checks],
              "kind_free_text": "TLA+ specs in /verif/spec checked by TLC (model checking + trace validation); Rust harness /verif/harness executes the real crate and records ndjson"},
         ],
         "checks": checks,
-        "not_applicable": [{"property_id": p, "reason": REASONS_NOT_YET} for p in props if p not in CLAIMED],
+        "not_applicable": na,
         "notes": "All verdicts are computed by TLC from the TLA+ specifications; the harness only executes and records. Exit codes: 0 ok, 1 VIOLATION, 2 tool error.",
     }
     (ROOT / "MANIFEST.json").write_text(json.dumps(m, indent=1) + "\n")
+    findings = []
+    for f in sorted((ROOT / "known").glob("*.json")):
+        findings += json.loads(f.read_text())
+    (ROOT / "known_findings.json").write_text(json.dumps({"findings": findings}, indent=1) + "\n")
+    print(f"claimed {len(checks)}, not claimed {len(na)}, findings {len(findings)}")
 
 
 if __name__ == "__main__":
